@@ -357,6 +357,12 @@ func (dht *IpfsDHT) getValues(ctx context.Context, key string, stopQuery chan st
 				}:
 				case <-ctx.Done():
 					return nil, ctx.Err()
+				case <-stopQuery:
+					// The consumer reached its quorum and stopped reading valCh.
+					// Drop the value instead of blocking until ctx is cancelled:
+					// with a context that is never cancelled this goroutine, and
+					// the lookup waiting for it, would never end.
+					return peers, nil
 				}
 
 				return peers, nil
